@@ -90,6 +90,8 @@ class Fn:
             if isinstance(n.value, str):
                 return f"(EStr {q(n.value)})"
             raise self.bad("constant", n)
+        if isinstance(n, ast.JoinedStr):
+            return '(EStr "<f-string>")'
         if isinstance(n, ast.Tuple):
             return "(ETuple [" + "; ".join(self.expr(e) for e in n.elts) + "])"
         if isinstance(n, ast.UnaryOp) and isinstance(n.op, ast.Not):
@@ -138,6 +140,8 @@ class Fn:
                 return f"(EGetattrDefault {self.expr(n.args[0])} {q(n.args[1].value)} {self.expr(n.args[2])})"
             if f.id == "str" and len(n.args) == 1:
                 return f"(EStrOf {self.expr(n.args[0])})"
+            if f.id == "repr" and len(n.args) == 1:
+                return f"(ECall {q('repr')} [{self.expr(n.args[0])}] None)"
             if f.id == "issubclass" and len(n.args) == 2:
                 return f"(ECall {q('issubclass')} [{self.expr(n.args[0])}; {self.expr(n.args[1])}] None)"
             if f.id == "type" and len(n.args) == 1:
@@ -574,29 +578,44 @@ Qed.
 
 (* ================================================================== is_safe_callable / call
    objects: the values of Model/SbxCall; events: safety checks and invocations *)
-Inductive scobj := SCObj (c : callable) | SCType (c : callable) | SCCallAttr (c : callable).
+(* objects of is_safe_callable: a (possibly partial-wrapped) callable, its type, the __call__ found on the type, the
+   __call__ attribute found on the instance.  The recursive call on the callable a partial wraps is answered by the
+   model on that callable (structural recursion over [wcallable]). *)
+Inductive scobj := SCW (w : wcallable) | SCType (c : callable) | SCCallAttr (c : callable) | SCICallAttr (c : callable).
+Definition w_own (w : wcallable) : callable := match w with WPlain c => c | WPartial own _ => own end.
 Definition sc_flag {O} (b : bool) : outcome (pv O) := if b then Norm (PBool true) else Exc "AttributeError".
 Definition sc_getattr (o : scobj) (a : string) : outcome (pv scobj) :=
   match o with
-  | SCObj c => if String.eqb a "unsafe_callable" then sc_flag (c_unsafe c)
-               else if String.eqb a "alters_data" then sc_flag (c_alters c) else Exc "AttributeError"
+  | SCW w => if String.eqb a "unsafe_callable" then sc_flag (c_unsafe (w_own w))
+             else if String.eqb a "alters_data" then sc_flag (c_alters (w_own w))
+             else if String.eqb a "__call__" then Norm (PObj (SCICallAttr (w_own w)))
+             else if String.eqb a "func" then match w with WPartial _ inner => Norm (PObj (SCW inner)) | WPlain _ => Exc "AttributeError" end
+             else Exc "AttributeError"
   | SCType c => if String.eqb a "__call__" then Norm (PObj (SCCallAttr c)) else Exc "AttributeError"
   | SCCallAttr c => if String.eqb a "unsafe_callable" then sc_flag (c_call_unsafe c)
                     else if String.eqb a "alters_data" then sc_flag (c_call_alters c) else Exc "AttributeError"
+  | SCICallAttr c => if String.eqb a "unsafe_callable" then sc_flag (c_icall_unsafe c)
+                     else if String.eqb a "alters_data" then sc_flag (c_icall_alters c) else Exc "AttributeError"
   end.
+Definition sc_globals (n : string) : pv scobj :=
+  if String.eqb n "partial" then PTy (fun o => match o with SCW (WPartial _ _) => true | _ => false end) else PNone.
 Definition sc_call (f : string) (args : list (pv scobj)) : list noev * outcome (pv scobj) :=
   if String.eqb f "type" then
-    match args with [PObj (SCObj c)] => ([], Norm (PObj (SCType c))) | _ => ([], Exc "TypeError") end
+    match args with [PObj (SCW w)] => ([], Norm (PObj (SCType (w_own w)))) | _ => ([], Exc "TypeError") end
+  else if String.eqb f (%(sc_self)s ++ ".is_safe_callable") then
+    match args with [PObj (SCW w)] => ([], Norm (PBool (is_safe_wcallable w))) | _ => ([], Exc "TypeError") end
   else ([], Exc "NameError").
-Definition src_safecall (c : callable) : list noev * outcome (pv scobj) :=
-  run scobj noev no_globals yes sc_getattr no_getitem sc_call exn_isa body_safecall
-      [(%(sc_self)s, PNone); (%(sc_obj)s, PObj (SCObj c))].
+Definition src_safecall (w : wcallable) : list noev * outcome (pv scobj) :=
+  run scobj noev sc_globals yes sc_getattr no_getitem sc_call exn_isa body_safecall
+      [(%(sc_self)s, PNone); (%(sc_obj)s, PObj (SCW w))].
 
-Theorem is_safe_callable_source_eq_model : forall c,
-  src_safecall c = ([], Norm (PBool (is_safe_callable_default c))).
+Theorem is_safe_callable_source_eq_model : forall w,
+  src_safecall w = ([], Norm (PBool (is_safe_wcallable w))).
 Proof.
-  intros [i u a fm cu ca]. unfold src_safecall, body_safecall, is_safe_callable_default, run.
-  destruct u, a, cu, ca; reflexivity.
+  intros w. unfold src_safecall, body_safecall, run.
+  destruct w as [[i u a fm cu ca iu ia]|[i u a fm cu ca iu ia] inner]; cbn [is_safe_wcallable];
+    unfold is_safe_callable_default; cbn -[is_safe_wcallable];
+    try destruct (is_safe_wcallable inner); destruct u, a, cu, ca, iu, ia; reflexivity.
 Qed.
 
 Fixpoint unwrap (l : list (pv cval)) : list cval :=
@@ -613,6 +632,7 @@ Definition gate_call (policy : callable -> bool) (invoke_result format_result : 
     | [PObj _] => ([], Norm (PBool true))       (* not a callable / the wrapper: nothing to refuse *)
     | _ => ([], Exc "TypeError")
     end
+  else if String.eqb f "repr" then ([], Norm (PStr "<repr>"))
   else if String.eqb f (%(call_self)s ++ ".wrap_str_format") then
     match args with
     | [PObj (CVCallable c)] => ([], Norm (if c_format c then PObj (CVWrap c) else PNone))
